@@ -28,12 +28,16 @@ def field_classes(p: int, d: int, mc, family: str):
         return _cache[key]
     par = PARENTS.get((p, d, tuple(mc)))
     if par:
-        # the way the library defines its own fields: a subclass that only overrides field_modulus - here of a
-        # class over ANOTHER prime that has already been instantiated and used
-        base = field_classes(par, d, mc, family)
+        # the way the library defines its own fields: a subclass that only overrides field_modulus (or only the modulus
+        # coefficients) of a class that has already been instantiated and used
+        ppar, pmc = (par, mc) if isinstance(par, int) else (par[0], tuple(par[1]))
+        base = field_classes(ppar, d, pmc, family)
         x = mk(base, d, [1] * d)
         _ = x * x + x
-        cls = type(f"T{family}Sub{d}_{p}_of_{par}", (base,), {"field_modulus": p})
+        attrs = {"field_modulus": p}
+        if tuple(pmc) != tuple(mc):
+            attrs = {("FQ2_MODULUS_COEFFS" if d == 2 else "FQ12_MODULUS_COEFFS"): tuple(mc)}
+        cls = type(f"T{family}Sub{d}_{p}", (base,), attrs)
         _cache[key] = cls
         return cls
     if family == "ref":
